@@ -1,6 +1,193 @@
+(* C20 -- Format autodetection picks the written format; conversions keep content.   (partial)
+
+   Property theorems only.  The model is NV.Util.Detect: detect_compression / detect_format /
+   Builder::build_from_reader of noodles-util's alignment and variant reader builders as pure
+   functions of the first fill_buf window, and the leading bytes the generic writers emit.
+
+   PARTIAL: (1) DEFLATE is not modelled -- BGZF compression [bgzf] and flate2's MultiGzDecoder
+   over a window [gunzip] are universally quantified functions constrained by the three premises
+   H_magic / H_prefix / H_whole of each theorem (validated against the real libraries on every
+   run of the correspondence check); (2) only the detection half of the property is proved; that
+   the records read back equal the records written, and conversions, rest on C05/C06/C07/C09/C10
+   and are evaluated on the implementation only (L3 oracle of harness/src/bin/c20.rs). *)
 From Coq Require Import List NArith.
-From NV Require Import Util.Detect.
+From NV Require Import Util.Detect Util.DetectProofs.
 Import ListNotations.
 Open Scope N_scope.
-Example c20_example : detect_a [66;65;77;1] (mk_inflated [] UnexpectedEof) = Ok (Bam, CNone).
-Proof. vm_compute. reflexivity. Qed.
+
+(* The statement one would like: every stream of the generic writer, whatever the first read
+   delivers, is detected as written.  It is FALSE for the faithful model (see the _refuted
+   lemmas below); the theorems that follow carry exactly the side conditions the proof needs. *)
+Definition c20_detect_written_full_statement : Prop :=
+  forall (bgzf : list N -> list N) (gunzip : list N -> inflated),
+    (forall p, exists r, bgzf p = 31 :: 139 :: r) ->
+    (forall p m, exists n, avail (gunzip (firstn m (bgzf p))) = firstn n p) ->
+    (forall p, gunzip (bgzf p) = mk_inflated p UnexpectedEof) ->
+    forall f c amb s k, (1 <= k)%nat -> written_a bgzf f c amb s ->
+      detect_a (window s k) (gunzip (window s k)) = Ok (f, c).
+
+(* Alignments.  For every stream s the generic alignment writer emits for (format f,
+   compression c) -- SAM text with any header lines and any records whose names the SAM writer
+   accepts, BAM, CRAM, each raw or BGZF-compressed -- outside the F14 class (amb = false:
+   not a header-less SAM whose first read name starts with "CRAM"), and every size k of the first
+   read: the builder decides exactly (f, c), provided the first window is large enough:
+     raw SAM: no condition at all;  raw BAM / CRAM: k >= 4;
+     BGZF: k >= 2 and the decoder gets 4 bytes out of the window (excludes F13 and short reads). *)
+Theorem c20_detect_written_partial :
+  forall (bgzf : list N -> list N) (gunzip : list N -> inflated)
+    (H_magic : forall p, exists r, bgzf p = 31 :: 139 :: r)
+    (H_prefix : forall p m, exists n, avail (gunzip (firstn m (bgzf p))) = firstn n p),
+  forall f c s k,
+    written_a bgzf f c false s -> window_ok_a gunzip f c s k ->
+    detect_a (window s k) (gunzip (window s k)) = Ok (f, c).
+Proof. exact detect_written_a_partial. Qed.
+Print Assumptions c20_detect_written_partial.
+
+(* Variants: VCF text (begins "##fileformat=VCFv") and BCF, raw or BGZF-compressed. *)
+Theorem c20_detect_written_variant_partial :
+  forall (bgzf : list N -> list N) (gunzip : list N -> inflated)
+    (H_magic : forall p, exists r, bgzf p = 31 :: 139 :: r)
+    (H_prefix : forall p m, exists n, avail (gunzip (firstn m (bgzf p))) = firstn n p),
+  forall f c s k,
+    written_v bgzf f c s -> window_ok_v gunzip f c s k ->
+    detect_v (window s k) (gunzip (window s k)) = Ok (f, c).
+Proof. exact detect_written_v_partial. Qed.
+Print Assumptions c20_detect_written_variant_partial.
+
+(* When the first read delivers the whole stream (it fits BufReader's 8 KiB buffer), the only
+   side condition left is F13: a BGZF-compressed SAM must have at least 4 bytes of text. *)
+Theorem c20_detect_written_whole_stream :
+  forall (bgzf : list N -> list N) (gunzip : list N -> inflated)
+    (H_magic : forall p, exists r, bgzf p = 31 :: 139 :: r)
+    (H_prefix : forall p m, exists n, avail (gunzip (firstn m (bgzf p))) = firstn n p)
+    (H_whole : forall p, gunzip (bgzf p) = mk_inflated p UnexpectedEof),
+  forall f c s k,
+    written_a bgzf f c false s -> (length s <= Nat.min k BUF_CAP)%nat ->
+    (forall hdr recs, s = bgzf (sam_text hdr recs) -> (4 <= length (sam_text hdr recs))%nat) ->
+    detect_a (window s k) (gunzip (window s k)) = Ok (f, c).
+Proof. exact detect_written_whole_a. Qed.
+Print Assumptions c20_detect_written_whole_stream.
+
+Theorem c20_detect_written_whole_stream_variant :
+  forall (bgzf : list N -> list N) (gunzip : list N -> inflated)
+    (H_magic : forall p, exists r, bgzf p = 31 :: 139 :: r)
+    (H_prefix : forall p m, exists n, avail (gunzip (firstn m (bgzf p))) = firstn n p)
+    (H_whole : forall p, gunzip (bgzf p) = mk_inflated p UnexpectedEof),
+  forall f c s k,
+    written_v bgzf f c s -> (length s <= Nat.min k BUF_CAP)%nat ->
+    detect_v (window s k) (gunzip (window s k)) = Ok (f, c).
+Proof. exact detect_written_whole_v. Qed.
+Print Assumptions c20_detect_written_whole_stream_variant.
+
+(* SAM text accepted by the SAM writer never begins with the gzip or the BAM magic, and begins
+   with the CRAM magic only in the F14 class *)
+Theorem c20_sam_text_not_magic :
+  forall hdr recs, forallb sam_line_ok recs = true ->
+    (forall r, sam_text hdr recs <> 31 :: 139 :: r) /\
+    (forall r, sam_text hdr recs <> BAM_MAGIC ++ r) /\
+    (sam_first_name_cram hdr recs = false -> forall r, sam_text hdr recs <> CRAM_MAGIC ++ r).
+Proof. exact sam_text_not_magic. Qed.
+Print Assumptions c20_sam_text_not_magic.
+
+(* magic numbers: pairwise distinct, none a prefix of another, none begins with '@', '#', '*' *)
+Theorem c20_magic_numbers_distinct :
+  BAM_MAGIC <> CRAM_MAGIC /\ firstn 3 BAM_MAGIC <> BCF_MAGIC /\ firstn 3 CRAM_MAGIC <> BCF_MAGIC /\
+  firstn 2 BAM_MAGIC <> GZIP_MAGIC /\ firstn 2 CRAM_MAGIC <> GZIP_MAGIC /\ firstn 2 BCF_MAGIC <> GZIP_MAGIC /\
+  (forall m, In m [BAM_MAGIC; CRAM_MAGIC; BCF_MAGIC; GZIP_MAGIC] ->
+             hd 0 m <> 64 /\ hd 0 m <> 35 /\ hd 0 m <> 42).
+Proof. exact magic_numbers_distinct. Qed.
+Print Assumptions c20_magic_numbers_distinct.
+
+(* autodetection never decides (CRAM, BGZF): the builder's InvalidData branch needs an override *)
+Theorem c20_detect_never_cram_bgzf : forall w i, detect_a w i <> Ok (Cram, CBgzf).
+Proof. exact detect_a_never_cram_bgzf. Qed.
+Print Assumptions c20_detect_never_cram_bgzf.
+
+(* ---- what fails (each reproduced against the real builders, see known_findings.d/C20.json) ---- *)
+
+(* F13: the BGZF-compressed SAM of an empty header and no records, delivered whole, makes the
+   builder fail with UnexpectedEof instead of answering SAM *)
+Theorem c20_f13_refuted :
+  forall (bgzf : list N -> list N) (gunzip : list N -> inflated)
+    (H_magic : forall p, exists r, bgzf p = 31 :: 139 :: r)
+    (H_whole : forall p, gunzip (bgzf p) = mk_inflated p UnexpectedEof),
+    (length (bgzf []) <= BUF_CAP)%nat ->
+    exists s k, written_a bgzf Sam CBgzf false s /\ (length s <= Nat.min k BUF_CAP)%nat /\
+                detect_a (window s k) (gunzip (window s k)) = Err UnexpectedEof.
+Proof. exact f13_refuted. Qed.
+Print Assumptions c20_f13_refuted.
+
+(* F14: a header-less SAM whose first read name starts with CRAM is detected as CRAM *)
+Theorem c20_f14_refuted :
+  exists hdr recs, forallb sam_line_ok recs = true /\ sam_first_name_cram hdr recs = true /\
+    forall i, detect_a (window (sam_text hdr recs) 8192) i = Ok (Cram, CNone).
+Proof. exact f14_refuted. Qed.
+Print Assumptions c20_f14_refuted.
+
+(* a short first read: raw BAM / CRAM / BCF are taken for SAM / VCF when the first read delivers
+   fewer bytes than the magic, any BGZF stream when it delivers one byte *)
+Theorem c20_short_window_refuted :
+  (forall rest i, detect_a (window (bam_payload rest) 3) i = Ok (Sam, CNone)) /\
+  (forall major minor rest i, detect_a (window (cram_stream major minor rest) 3) i = Ok (Sam, CNone)) /\
+  (forall rest i, detect_v (window (bcf_payload rest) 2) i = Ok (Vcf, CNone)).
+Proof. exact short_window_raw_refuted. Qed.
+Print Assumptions c20_short_window_refuted.
+
+Theorem c20_short_window_gz_refuted :
+  forall (bgzf : list N -> list N) (gunzip : list N -> inflated)
+    (H_magic : forall p, exists r, bgzf p = 31 :: 139 :: r),
+  forall p,
+    detect_a (window (bgzf p) 1) (gunzip (window (bgzf p) 1)) = Ok (Sam, CNone) /\
+    detect_v (window (bgzf p) 1) (gunzip (window (bgzf p) 1)) = Ok (Vcf, CNone).
+Proof. exact short_window_gz_refuted. Qed.
+Print Assumptions c20_short_window_gz_refuted.
+
+(* ---- non-vacuity: concrete instances of the hypotheses ---- *)
+
+(* a toy "BGZF" (gzip magic + stored payload) and its decoder satisfy the three premises, so the
+   theorems above are not vacuous in their oracle hypotheses *)
+Definition toy_bgzf (p : list N) : list N := 31 :: 139 :: p.
+Definition toy_gunzip (w : list N) : inflated := mk_inflated (skipn 2 w) UnexpectedEof.
+Example c20_oracle_premises_satisfiable :
+  (forall p, exists r, toy_bgzf p = 31 :: 139 :: r) /\
+  (forall p m, exists n, avail (toy_gunzip (firstn m (toy_bgzf p))) = firstn n p) /\
+  (forall p, toy_gunzip (toy_bgzf p) = mk_inflated p UnexpectedEof).
+Proof.
+  split; [intro p; exists p; reflexivity|]. split; [|intro p; reflexivity].
+  intros p m. unfold toy_gunzip, toy_bgzf. cbn [avail].
+  destruct m as [|[|m]]; [exists 0%nat; reflexivity|exists 0%nat; reflexivity|].
+  exists m. reflexivity.
+Qed.
+
+(* the unconditional statement is false already for the toy oracle: a BAM whose first read
+   delivers one byte *)
+Theorem c20_detect_written_full_statement_refuted : ~ c20_detect_written_full_statement.
+Proof.
+  intro H.
+  specialize (H toy_bgzf toy_gunzip (proj1 c20_oracle_premises_satisfiable)
+                (proj1 (proj2 c20_oracle_premises_satisfiable))
+                (proj2 (proj2 c20_oracle_premises_satisfiable))
+                Bam CBgzf false (toy_bgzf (bam_payload [])) 1%nat (le_n 1) (WBam toy_bgzf [])).
+  vm_compute in H. discriminate.
+Qed.
+Print Assumptions c20_detect_written_full_statement_refuted.
+
+(* a header-less SAM with one read named "r1", BGZF-compressed, delivered whole: (SAM, BGZF);
+   and a read named "CRA" (not the F14 class) raw: SAM *)
+Example c20_example_samgz :
+  let s := toy_bgzf (sam_text [] [mk_sam_line (Some [114; 49]) [52; 9; 42]]) in
+  written_a toy_bgzf Sam CBgzf false s /\
+  detect_a (window s 100) (toy_gunzip (window s 100)) = Ok (Sam, CBgzf).
+Proof. split; [apply WSamGz; reflexivity|vm_compute; reflexivity]. Qed.
+
+Example c20_example_cra :
+  let recs := [mk_sam_line (Some [67; 82; 65]) [52; 9; 42]] in
+  forallb sam_line_ok recs = true /\ sam_first_name_cram [] recs = false /\
+  detect_a (window (sam_text [] recs) 100) (mk_inflated [] UnexpectedEof) = Ok (Sam, CNone).
+Proof. repeat split. Qed.
+
+Example c20_example_bam :
+  detect_a (window (toy_bgzf (bam_payload [0;0;0;0])) 8192) (toy_gunzip (window (toy_bgzf (bam_payload [0;0;0;0])) 8192))
+    = Ok (Bam, CBgzf)
+  /\ detect_v (window (bcf_payload [0]) 3) (mk_inflated [] UnexpectedEof) = Ok (Bcf, CNone).
+Proof. split; vm_compute; reflexivity. Qed.
